@@ -9,6 +9,19 @@ import (
 	"github.com/lindb/lindb/pkg/fileutil"
 )
 
+// verifFail lets the simulator fail a file-system operation with an I/O error (disk full, EIO) instead of running it.
+var verifFail func(op, path string) error
+
+// VerifSetFSFail sets the I/O error injection of the package's file-system seams (nil = none).
+func VerifSetFSFail(fail func(op, path string) error) { verifFail = fail }
+
+func failFS(op, path string) error {
+	if verifFail == nil {
+		return nil
+	}
+	return verifFail(op, path)
+}
+
 // Simulation hook (build tag verif).
 
 type verifWriter struct {
@@ -19,10 +32,25 @@ type verifWriter struct {
 
 func (w *verifWriter) Write(b []byte) (int, error) {
 	w.pre("write", w.name)
+	if err := failFS("write", w.name); err != nil {
+		return 0, err
+	}
 	return w.BufioWriter.Write(b)
 }
-func (w *verifWriter) Sync() error  { w.pre("sync", w.name); return w.BufioWriter.Sync() }
-func (w *verifWriter) Flush() error { w.pre("flush", w.name); return w.BufioWriter.Flush() }
+func (w *verifWriter) Sync() error {
+	w.pre("sync", w.name)
+	if err := failFS("sync", w.name); err != nil {
+		return err
+	}
+	return w.BufioWriter.Sync()
+}
+func (w *verifWriter) Flush() error {
+	w.pre("flush", w.name)
+	if err := failFS("flush", w.name); err != nil {
+		return err
+	}
+	return w.BufioWriter.Flush()
+}
 func (w *verifWriter) Close() error { w.pre("close", w.name); return w.BufioWriter.Close() }
 
 // VerifSetFS wraps the table writer / mapping seams with pre(op, path); nil restores them.
@@ -43,10 +71,16 @@ func VerifSetFS(pre func(op, path string)) {
 	}
 	mapFunc = func(f *os.File) ([]byte, error) {
 		pre("map", f.Name())
+		if err := failFS("map", f.Name()); err != nil {
+			return nil, err
+		}
 		return fileutil.Map(f)
 	}
 	unmapFunc = func(f *os.File, data []byte) error {
 		pre("unmap", f.Name())
+		if err := failFS("unmap", f.Name()); err != nil {
+			return err
+		}
 		return fileutil.Unmap(f, data)
 	}
 }
